@@ -4,6 +4,7 @@ import (
 	"fmt"
 	"os"
 	"sync"
+	"sync/atomic"
 	"testing"
 	"time"
 
@@ -128,7 +129,7 @@ var propDrift = hx.Prop[DCase]{
 		"is purged, one message of exactly the limit is delivered and must be retrievable (any positive drift evicts it), and a generated sequential " +
 		"history must match the reference model from the empty state step by step (negative drift shows as bytes over the limit); " +
 		"non-trivial = the concurrent phase contained a removal or purge and its deliveries exceeded the limit (evictions ran); distinct = distinct case JSON",
-	Quick: 150, Thorough: 1500,
+	Quick: 400, Thorough: 3000,
 	Gen: func(t *rapid.T) DCase {
 		c := DCase{Cap: rapid.SampledFrom([]int{0, 2, 2, 3}).Draw(t, "cap"), MaxKB: rapid.SampledFrom([]int{1, 2, 2, 4}).Draw(t, "maxkb")}
 		c.Boxes = hx.BoxesGen(2, 3).Draw(t, "boxes")
@@ -164,51 +165,92 @@ func runDrift(c DCase) *hx.Outcome {
 	var mu sync.Mutex
 	live := map[string][]string{} // ids delivered and not yet asked to go, oldest first (a belief, not a model)
 	var delivered int64
+	var freshIDs [][2]string // the first deliveries to the per-round fresh mailboxes
 	cleared := false
 	overCap := ""
 	var wg sync.WaitGroup
 	done := make(chan struct{})
+	// The workers proceed in rounds of six operations. A round begins, for all of them at the same
+	// instant, with a small delivery to a mailbox nobody has used before: the first messages of
+	// a mailbox arriving together is where its creation can go wrong.
+	const perRound = 6
+	rounds := 0
+	for _, w := range c.Workers {
+		if r := (len(w) + perRound - 1) / perRound; r > rounds {
+			rounds = r
+		}
+	}
+	gates := make([]*sync.WaitGroup, rounds)
+	for r := range gates {
+		gates[r] = &sync.WaitGroup{}
+		gates[r].Add(len(c.Workers))
+	}
+	var spin atomic.Int32
 	for _, w := range c.Workers {
 		wg.Add(1)
 		go func(w []WOp) {
 			defer wg.Done()
-			for _, op := range w {
-				box := c.Boxes[op.Box%len(c.Boxes)]
-				switch op.K {
-				case "add":
-					id, err := st.AddMessage(hx.NewDelivery(box, nil, nil, hx.BaseTime, "w", make([]byte, op.Size)))
+			for r := 0; r < rounds; r++ {
+				gates[r].Done()
+				gates[r].Wait()
+				fresh := fmt.Sprintf("fresh-%d", r)
+				// (the wait group wakes its waiters one after the other; a spin on a counter lets
+				// them go within nanoseconds of each other)
+				spin.Add(1)
+				for int(spin.Load()) < len(c.Workers)*(r+1) {
+				}
+				if id, err := st.AddMessage(hx.NewDelivery(fresh, nil, nil, hx.BaseTime, "w", make([]byte, 10))); err == nil {
 					mu.Lock()
-					if err == nil {
-						live[box] = append(live[box], id)
-						delivered += int64(op.Size)
-					}
+					live[fresh] = append(live[fresh], id)
+					delivered += 10
+					freshIDs = append(freshIDs, [2]string{fresh, id})
 					mu.Unlock()
-				case "remove":
-					mu.Lock()
-					id := ""
-					if l := live[box]; len(l) > 0 {
-						i := op.N % len(l)
-						id = l[i]
-						live[box] = append(append([]string{}, l[:i]...), l[i+1:]...)
-					}
-					cleared = true
-					mu.Unlock()
-					if id != "" {
-						_ = st.RemoveMessage(box, id) // may have been evicted already
-					}
-				case "purge":
-					mu.Lock()
-					live[box] = nil
-					cleared = true
-					mu.Unlock()
-					_ = st.PurgeMessages(box)
-				case "list":
-					// "a mailbox never lists more than the cap": also not for a moment, to a reader
-					// that looks while a delivery is under way
-					if ms, err := st.GetMessages(box); err == nil && c.Cap > 0 && len(ms) > c.Cap {
+				}
+				lo, hi := r*perRound, (r+1)*perRound
+				if lo > len(w) {
+					lo = len(w)
+				}
+				if hi > len(w) {
+					hi = len(w)
+				}
+				for _, op := range w[lo:hi] {
+					box := c.Boxes[op.Box%len(c.Boxes)]
+					switch op.K {
+					case "add":
+						id, err := st.AddMessage(hx.NewDelivery(box, nil, nil, hx.BaseTime, "w", make([]byte, op.Size)))
 						mu.Lock()
-						overCap = fmt.Sprintf("a reader listed %d messages in mailbox %q although the cap is %d", len(ms), box, c.Cap)
+						if err == nil {
+							live[box] = append(live[box], id)
+							delivered += int64(op.Size)
+						}
 						mu.Unlock()
+					case "remove":
+						mu.Lock()
+						id := ""
+						if l := live[box]; len(l) > 0 {
+							i := op.N % len(l)
+							id = l[i]
+							live[box] = append(append([]string{}, l[:i]...), l[i+1:]...)
+						}
+						cleared = true
+						mu.Unlock()
+						if id != "" {
+							_ = st.RemoveMessage(box, id) // may have been evicted already
+						}
+					case "purge":
+						mu.Lock()
+						live[box] = nil
+						cleared = true
+						mu.Unlock()
+						_ = st.PurgeMessages(box)
+					case "list":
+						// "a mailbox never lists more than the cap": also not for a moment, to a reader
+						// that looks while a delivery is under way
+						if ms, err := st.GetMessages(box); err == nil && c.Cap > 0 && len(ms) > c.Cap {
+							mu.Lock()
+							overCap = fmt.Sprintf("a reader listed %d messages in mailbox %q although the cap is %d", len(ms), box, c.Cap)
+							mu.Unlock()
+						}
 					}
 				}
 			}
@@ -220,6 +262,14 @@ func runDrift(c DCase) *hx.Outcome {
 	case <-time.After(20 * time.Second):
 		o.Failf(pid+":hang", "[mem cap=%d maxkb=%d] the concurrent phase did not finish within 20 s", c.Cap, c.MaxKB)
 		return o
+	}
+	seenID := map[[2]string]bool{}
+	for _, f := range freshIDs {
+		if seenID[f] {
+			o.Failf(pid+":duplicate-id", "[mem cap=%d maxkb=%d] two of the deliveries that arrived together in the new mailbox %q received the same id %s", c.Cap, c.MaxKB, f[0], f[1])
+			break
+		}
+		seenID[f] = true
 	}
 	if overCap != "" {
 		o.Failf(pid+":over-cap", "[mem cap=%d maxkb=%d] during the concurrent phase %s", c.Cap, c.MaxKB, overCap)
@@ -234,7 +284,11 @@ func runDrift(c DCase) *hx.Outcome {
 	if total > limit {
 		o.Failf(pid+":over-limit", "[mem cap=%d maxkb=%d] after the concurrent phase the store holds %d bytes, limit %d", c.Cap, c.MaxKB, total, limit)
 	}
-	for _, b := range c.Boxes {
+	allBoxes := append([]string{}, c.Boxes...)
+	for r := 0; r < rounds; r++ {
+		allBoxes = append(allBoxes, fmt.Sprintf("fresh-%d", r))
+	}
+	for _, b := range allBoxes {
 		if err := st.PurgeMessages(b); err != nil {
 			o.Failf(pid+":purge-error", "PurgeMessages(%q): %v", b, err)
 		}
